@@ -204,6 +204,9 @@ class Scn:
         os.utime(q, ns=(s.st_atime_ns, s.st_mtime_ns))
         w.log.append(['rewrite-in-place-keeping-mtime', sd, tsub])
         usable = w.inodes_usable(w.content(), sd)
+        if not usable:
+            a.store[(sd, tsub)] = []          # a new path for the tool: the only version it can ever sync is the rewritten one
+            a.note_version(sd, tsub)
         r, st = self.sync()
         if r is None:
             return
@@ -346,11 +349,11 @@ def configs(rng, n):
     kinds = ['copy', 'copy', 'copy', 'rename', 'partial', 'import', 'import', 'rep']
     for i in range(n):
         k = kinds[i % len(kinds)]
-        out.append({'kind': k, 'nd': 3 if k in ('rep',) or i % 3 == 0 else 2, 'np': 1 if k == 'import' else rng.choice([1, 2]), 'order': 'alpha',
-                    'uuid': i % 2 == 0, 'where': 'tmpfs', 'seed': rng.getrandbits(32), 'i': i,
-                    'variant': ['plain', 'prehash', 'nocopy'][(i // len(kinds)) % 3] if k == 'copy' else ['stamp', 'content', 'dup'][(i // 4) % 3],
-                    'nsec_zero': (i // 2) % 3 == 0, 'same_path': (i // 3) % 2 == 0, 'decoy': i % 5 != 4,
-                    'with_true': (i // 8) % 2 == 0, 'decoy_first': (i // 16) % 2 == 0})
+        out.append({'kind': k, 'nd': 3 if k == 'rep' or rng.random() < 0.3 else 2, 'np': 1 if k == 'import' else rng.choice([1, 2]), 'order': 'alpha',
+                    'uuid': rng.random() < 0.5, 'where': 'tmpfs', 'seed': rng.getrandbits(32), 'i': i,
+                    'variant': ['plain', 'prehash', 'nocopy'][(i // len(kinds) + i) % 3] if k == 'copy' else rng.choice(['stamp', 'content', 'dup']),
+                    'nsec_zero': rng.random() < 0.4, 'same_path': rng.random() < 0.5, 'decoy': rng.random() < 0.8,
+                    'with_true': rng.random() < 0.5, 'decoy_first': rng.random() < 0.5})
     return out
 
 
